@@ -887,7 +887,7 @@ def complex_contagion_rule(repo, rep):
     rep.ob("R11c", oki, "complex contagion: initially every node is rated on the initial statuses", func=f, node=init[0] if init else f.node,
            construct="initial rating loop", detail="" if oki else "initial rating changed")
     nb = [n for n in own_nodes(f.node) if isinstance(n, ast.Assign) and _key(n.targets[0]) == "nodes_by_rate"]
-    okb = len(nb) == 1 and _key(nb[0].value) == "_ListDict_(weighted=True)"
+    okb = len(nb) == 1 and _key(nb[0].value) in ("_ListDict_(weighted=True)", "_ListDict_(True)")
     rep.ob("R11c", okb, "complex contagion: candidates live in a weighted _ListDict_", func=f, node=nb[0] if nb else f.node,
            construct=short(nb[0]) if nb else None, detail="" if okb else "candidate container changed")
     st0 = [n for n in f.node.body if isinstance(n, ast.Assign) and _key(n.targets[0]) == "status"]
